@@ -480,6 +480,12 @@ class Ctx:
         quick = int(quick * scale)
         attempts = [(quick, self.engine.seed)] + ([(int(2500 * scale), self.engine.seed + 17),
                                                     (int(2500 * scale), self.engine.seed + 101)] if self.qfacts else [])
+        # once a function has used up its solver budget (a change can make many obligations hard at once) the remaining
+        # ones get the first short attempt only: the run ends `undecided` in bounded time instead of after an hour
+        spent = self.solver_time + getattr(getattr(self.engine, "current_report", None), "solver_time", 0.0)
+        over_budget = spent > getattr(self.engine, "function_budget_s", 240.0) * scale
+        if over_budget:
+            attempts = attempts[:1]
         for tmo, seed in attempts:
             s.push()
             try:
@@ -502,8 +508,12 @@ class Ctx:
                 res = self.refute_by_instances(goal)
                 if res is not None:
                     return res
-        if self.qfacts:
-            pass
+        if over_budget:
+            cand = getattr(self, "candidate", None)
+            self.candidate = None
+            if cand is not None:
+                return "unknown", cand[0], cand[1]
+            return "unknown", None, "z3 (function over its solver budget: short attempt only)"
         s.push()
         try:
             for q in self.qfacts:
